@@ -128,7 +128,6 @@ func runC17(c *core.Ctx) {
 			continue
 		}
 		m := s.Merged()
-		qn, mn, sn := s.RootTypes()
 		var typeNames []string
 		for _, d := range m.Defs {
 			if d.Kind != sgen.KDirective {
@@ -141,147 +140,232 @@ func runC17(c *core.Ctx) {
 				c.Count("schema_refused")
 				break
 			}
-			opName := ""
-			report := func(query, incl, diff string, res map[string]interface{}) {
-				what := c17What(diff)
-				c.Outcome("diff:" + what)
-				c.Violation("introspection-diff", map[string]string{"what": what, "strategy": st.String(), "custom_root": fmt.Sprint(qn != "Query")},
-					map[string]interface{}{"schema": descs[si], "sdl": sdl, "strategy": st.String(), "query": query, "includeDeprecated": incl, "diff": diff, "errors": res["errors"]})
-			}
-			// ---- full __schema query, three includeDeprecated modes
-			for _, mode := range []struct {
-				text string
-				incl bool
-				name string
-			}{{"(includeDeprecated: true)", true, "true"}, {"(includeDeprecated: false)", false, "false"}, {"", false, "absent"}} {
-				q := `{__schema{queryType{name} mutationType{name} subscriptionType{name} types{` + c17TypeSel(mode.text) + `} directives{name description locations args{name description defaultValue type{` + c17TypeRef + `}}}}}`
-				c.Eval()
-				c.R.Distinct++
-				if si >= len(bases) || !mode.incl {
-					c.Nontrivial()
-				}
-				core.Announce("introspection on " + descs[si])
-				var res map[string]interface{}
-				if pi := core.Safe(func() { res = root.ResolveString(q, opName, nil) }); pi != nil {
-					c.Outcome("panic")
-					c.Violation("panic", map[string]string{"site": pi.Site, "class": pi.Class, "strategy": st.String()}, map[string]interface{}{"schema": descs[si], "sdl": sdl, "query": q, "panic": pi.Value})
-					continue
-				}
-				data, _ := world.Canon(res["data"]).(map[string]interface{})
-				sch, _ := data["__schema"].(map[string]interface{})
-				if sch == nil {
-					report(q, mode.name, "__schema: no answer", res)
-					continue
-				}
-				bad := false
-				rootName := func(k, want string) {
-					got := ""
-					if mm, ok := sch[k].(map[string]interface{}); ok {
-						got, _ = mm["name"].(string)
-					}
-					if got != want && !bad {
-						report(q, mode.name, fmt.Sprintf("%s.name: want %q got %q", k, want, got), res)
-						bad = true
-					}
-				}
-				rootName("queryType", qn)
-				rootName("mutationType", mn)
-				rootName("subscriptionType", sn)
-				tl, _ := sch["types"].([]interface{})
-				counts := map[string]int{}
-				byN := map[string]interface{}{}
-				for _, t := range tl {
-					if tm, ok := t.(map[string]interface{}); ok {
-						n, _ := tm["name"].(string)
-						counts[n]++
-						byN[n] = tm
-					}
-				}
-				for _, n := range append(append([]string{}, typeNames...), c17CoreTypes...) {
-					if bad {
-						break
-					}
-					if counts[n] != 1 {
-						report(q, mode.name, fmt.Sprintf("types: %s listed %d times", n, counts[n]), res)
-						bad = true
-					}
-				}
-				for _, n := range typeNames {
-					if bad {
-						break
-					}
-					if d := sgen.CompareType(sgen.ExpectedType(s, n, mode.incl), byN[n]); d != "" {
-						report(q, mode.name, d, res)
-						bad = true
-					}
-				}
-				dl, _ := sch["directives"].([]interface{})
-				dm := map[string]interface{}{}
-				for _, d := range dl {
-					if dmm, ok := d.(map[string]interface{}); ok {
-						dm[fmt.Sprint(dmm["name"])] = dmm
-					}
-				}
-				for _, dn := range append(s.DirectiveNames(), "skip", "include", "deprecated") {
-					if bad {
-						break
-					}
-					if want := sgen.ExpectedDirective(s, dn); want != nil {
-						if d := sgen.CompareDirective(want, dm[dn]); d != "" {
-							report(q, mode.name, d, res)
-							bad = true
-						}
-					} else if dm[dn] == nil {
-						report(q, mode.name, "directives: built-in @"+dn+" missing", res)
-						bad = true
-					}
-				}
-				if !bad {
-					c.Outcome("faithful:__schema")
-				}
-			}
-			// ---- __type(name:) for every name, literal and variable
-			for _, n := range append(append(append([]string{}, typeNames...), "Zq7Unknown", "Int", "skip", "deprecated"), s.DirectiveNames()...) {
-				for _, viaVar := range []bool{false, true} {
-					q := `{__type(name: "` + n + `"){` + c17TypeSel("(includeDeprecated: true)") + `}}`
-					var vars map[string]interface{}
-					if viaVar {
-						q = `query T($n: String!){__type(name: $n){` + c17TypeSel("(includeDeprecated: true)") + `}}`
-						vars = map[string]interface{}{"n": n}
-					}
-					c.Eval()
-					c.R.Distinct++
-					c.Nontrivial()
-					var res map[string]interface{}
-					if pi := core.Safe(func() { res = root.ResolveString(q, opName, vars) }); pi != nil {
-						c.Violation("panic", map[string]string{"site": pi.Site, "class": pi.Class, "strategy": st.String()}, map[string]interface{}{"schema": descs[si], "query": q, "panic": pi.Value})
-						continue
-					}
-					data, _ := world.Canon(res["data"]).(map[string]interface{})
-					got := data["__type"]
-					want := sgen.ExpectedType(s, n, true)
-					if want == nil {
-						if got != nil {
-							report(q, "true", "__type of an unknown name: want null got "+fmt.Sprint(got), res)
-						} else if _, has := data["__type"]; !has && res["errors"] != nil {
-							report(q, "true", "__type of an unknown name: want null, got an error and no answer", res)
-						} else {
-							c.Outcome("faithful:__type-unknown")
-						}
-						continue
-					}
-					if d := sgen.CompareType(want, got); d != "" {
-						report(q, "true", "__type: "+d, res)
-						continue
-					}
-					c.Outcome("faithful:__type")
-				}
-			}
+			c17Inspect(c, root, s, descs[si], sdl, st, si >= len(bases))
 		}
 		c.Sample(func() interface{} { return map[string]interface{}{"schema": descs[si], "types": typeNames} })
 	}
-	c.R.Bound = fmt.Sprintf("%d schemas x 3 strategies x (3 __schema modes + 2 x every type name)", len(subjects))
+	// ---- histories: the schema grows on a root that has already answered introspection, and refused loads come in between.
+	// For every base and every valid edit that only ADDS units (new types, extend blocks): load the base, inspect, a refused
+	// load (its first types are added to the tables before an undefined reference refuses it), inspect, load the added units,
+	// inspect against the grown schema, a refused load again, inspect. Every inspection is the complete one above.
+	const refusedLoad = "type Apple7 { x: Int }\ntype Aardvark7 { y: Zq7Undefined }\ndirective @aaa7 on OBJECT\nextend type Apple7 { z: Int }\n"
+	nHist := 0
+	for bi, b := range bases {
+		if len(b.WellFormed()) > 0 {
+			continue
+		}
+		baseUnits := map[string]bool{}
+		for _, u := range b.Units() {
+			baseUnits[u.Text()] = true
+		}
+		for _, v := range sgen.ValidVariants(b) {
+			if len(v.Schema.WellFormed()) > 0 {
+				continue
+			}
+			var extra []string
+			kept := 0
+			for _, u := range v.Schema.Units() {
+				if baseUnits[u.Text()] {
+					kept++
+				} else {
+					extra = append(extra, u.Text())
+				}
+			}
+			if kept != len(baseUnits) || len(extra) == 0 {
+				continue // the edit changes a unit of the base: not a later load
+			}
+			nHist++
+			later := strings.Join(extra, "\n") + "\n"
+			if c.Expired() {
+				completed = false
+				break
+			}
+			if !c.Owns("history|" + b.SDL() + "|" + later) {
+				continue
+			}
+			desc := fmt.Sprintf("S%d, then in a later load: %s", bi, v.Desc)
+			for _, st := range strats {
+				root, err := c17Root(st, b.SDL())
+				if err != nil {
+					c.Count("schema_refused")
+					break
+				}
+				steps := []struct {
+					load   string
+					refuse bool
+					now    *sgen.Schema
+				}{{"", false, b}, {refusedLoad, true, b}, {later, false, v.Schema}, {refusedLoad, true, v.Schema}}
+				for i, stp := range steps {
+					if stp.load != "" {
+						var lerr error
+						if pi := core.Safe(func() { lerr = root.ParseString(stp.load) }); pi != nil {
+							c.Violation("panic", map[string]string{"site": pi.Site, "class": pi.Class, "strategy": st.String()}, map[string]interface{}{"schema": desc, "load": stp.load, "panic": pi.Value})
+							break
+						}
+						if (lerr != nil) != stp.refuse {
+							if stp.refuse {
+								panic(core.EngineError{Msg: "C17 history: the load meant to be refused was accepted"})
+							}
+							c.Count("later_load_refused") // C16's business (a schema in several loads); nothing to inspect
+							break
+						}
+					}
+					c17Inspect(c, root, stp.now, fmt.Sprintf("%s [history step %d]", desc, i), b.SDL()+"\n# later load:\n"+later, st, true)
+				}
+			}
+		}
+	}
+	c.R.Bound = fmt.Sprintf("%d schemas x 3 strategies x (3 __schema modes + 2 x every type name); %d growth histories (base, refused load, later load, refused load) x 3 strategies, each step inspected in full", len(subjects), nHist)
 	if !completed {
 		c.Cap("deadline reached")
+	}
+}
+
+// c17Inspect asks root for the whole __schema (three includeDeprecated modes) and for __type of every name, and compares each
+// answer with what the reference derives from s. desc / sdl describe how the root got there.
+func c17Inspect(c *core.Ctx, root *ggql.Root, s *sgen.Schema, desc, sdl string, st world.Strategy, nontrivial bool) {
+	m := s.Merged()
+	qn, mn, sn := s.RootTypes()
+	var typeNames []string
+	for _, d := range m.Defs {
+		if d.Kind != sgen.KDirective {
+			typeNames = append(typeNames, d.Name)
+		}
+	}
+	opName := ""
+	report := func(query, incl, diff string, res map[string]interface{}) {
+		what := c17What(diff)
+		c.Outcome("diff:" + what)
+		c.Violation("introspection-diff", map[string]string{"what": what, "strategy": st.String(), "custom_root": fmt.Sprint(qn != "Query")},
+			map[string]interface{}{"schema": desc, "sdl": sdl, "strategy": st.String(), "query": query, "includeDeprecated": incl, "diff": diff, "errors": res["errors"]})
+	}
+	// ---- full __schema query, three includeDeprecated modes
+	for _, mode := range []struct {
+		text string
+		incl bool
+		name string
+	}{{"(includeDeprecated: true)", true, "true"}, {"(includeDeprecated: false)", false, "false"}, {"", false, "absent"}} {
+		q := `{__schema{queryType{name} mutationType{name} subscriptionType{name} types{` + c17TypeSel(mode.text) + `} directives{name description locations args{name description defaultValue type{` + c17TypeRef + `}}}}}`
+		c.Eval()
+		c.R.Distinct++
+		if nontrivial || !mode.incl {
+			c.Nontrivial()
+		}
+		core.Announce("introspection on " + desc)
+		var res map[string]interface{}
+		if pi := core.Safe(func() { res = root.ResolveString(q, opName, nil) }); pi != nil {
+			c.Outcome("panic")
+			c.Violation("panic", map[string]string{"site": pi.Site, "class": pi.Class, "strategy": st.String()}, map[string]interface{}{"schema": desc, "sdl": sdl, "query": q, "panic": pi.Value})
+			continue
+		}
+		data, _ := world.Canon(res["data"]).(map[string]interface{})
+		sch, _ := data["__schema"].(map[string]interface{})
+		if sch == nil {
+			report(q, mode.name, "__schema: no answer", res)
+			continue
+		}
+		bad := false
+		rootName := func(k, want string) {
+			got := ""
+			if mm, ok := sch[k].(map[string]interface{}); ok {
+				got, _ = mm["name"].(string)
+			}
+			if got != want && !bad {
+				report(q, mode.name, fmt.Sprintf("%s.name: want %q got %q", k, want, got), res)
+				bad = true
+			}
+		}
+		rootName("queryType", qn)
+		rootName("mutationType", mn)
+		rootName("subscriptionType", sn)
+		tl, _ := sch["types"].([]interface{})
+		counts := map[string]int{}
+		byN := map[string]interface{}{}
+		for _, t := range tl {
+			if tm, ok := t.(map[string]interface{}); ok {
+				n, _ := tm["name"].(string)
+				counts[n]++
+				byN[n] = tm
+			}
+		}
+		for _, n := range append(append([]string{}, typeNames...), c17CoreTypes...) {
+			if bad {
+				break
+			}
+			if counts[n] != 1 {
+				report(q, mode.name, fmt.Sprintf("types: %s listed %d times", n, counts[n]), res)
+				bad = true
+			}
+		}
+		for _, n := range typeNames {
+			if bad {
+				break
+			}
+			if d := sgen.CompareType(sgen.ExpectedType(s, n, mode.incl), byN[n]); d != "" {
+				report(q, mode.name, d, res)
+				bad = true
+			}
+		}
+		dl, _ := sch["directives"].([]interface{})
+		dm := map[string]interface{}{}
+		for _, d := range dl {
+			if dmm, ok := d.(map[string]interface{}); ok {
+				dm[fmt.Sprint(dmm["name"])] = dmm
+			}
+		}
+		for _, dn := range append(s.DirectiveNames(), "skip", "include", "deprecated") {
+			if bad {
+				break
+			}
+			if want := sgen.ExpectedDirective(s, dn); want != nil {
+				if d := sgen.CompareDirective(want, dm[dn]); d != "" {
+					report(q, mode.name, d, res)
+					bad = true
+				}
+			} else if dm[dn] == nil {
+				report(q, mode.name, "directives: built-in @"+dn+" missing", res)
+				bad = true
+			}
+		}
+		if !bad {
+			c.Outcome("faithful:__schema")
+		}
+	}
+	// ---- __type(name:) for every name, literal and variable
+	for _, n := range append(append(append([]string{}, typeNames...), "Zq7Unknown", "Int", "skip", "deprecated"), s.DirectiveNames()...) {
+		for _, viaVar := range []bool{false, true} {
+			q := `{__type(name: "` + n + `"){` + c17TypeSel("(includeDeprecated: true)") + `}}`
+			var vars map[string]interface{}
+			if viaVar {
+				q = `query T($n: String!){__type(name: $n){` + c17TypeSel("(includeDeprecated: true)") + `}}`
+				vars = map[string]interface{}{"n": n}
+			}
+			c.Eval()
+			c.R.Distinct++
+			c.Nontrivial()
+			var res map[string]interface{}
+			if pi := core.Safe(func() { res = root.ResolveString(q, opName, vars) }); pi != nil {
+				c.Violation("panic", map[string]string{"site": pi.Site, "class": pi.Class, "strategy": st.String()}, map[string]interface{}{"schema": desc, "query": q, "panic": pi.Value})
+				continue
+			}
+			data, _ := world.Canon(res["data"]).(map[string]interface{})
+			got := data["__type"]
+			want := sgen.ExpectedType(s, n, true)
+			if want == nil {
+				if got != nil {
+					report(q, "true", "__type of an unknown name: want null got "+fmt.Sprint(got), res)
+				} else if _, has := data["__type"]; !has && res["errors"] != nil {
+					report(q, "true", "__type of an unknown name: want null, got an error and no answer", res)
+				} else {
+					c.Outcome("faithful:__type-unknown")
+				}
+				continue
+			}
+			if d := sgen.CompareType(want, got); d != "" {
+				report(q, "true", "__type: "+d, res)
+				continue
+			}
+			c.Outcome("faithful:__type")
+		}
 	}
 }
